@@ -23,7 +23,7 @@ RULE = ("a case = one event history over {send, explicit authenticate (good / to
         "<= 65536); an exchange starting > 12 h after the last handshake continues with a handshake, and one starting > lifetime after the "
         "connection was opened never uses that connection again. Plus one long session (> 4096 packets quick, > 65536 thorough) on a single "
         "connection. distinct = (history, lifetime); non-trivial = histories with >= 1 letter")
-ASSUMPTIONS = ["histories start with a successful explicit authenticate (the library learns the device is V3 from that call)",
+ASSUMPTIONS = ["histories start with an explicit authenticate (the library learns the device is V3 from that call); it succeeds at once, or its first attempts fail at the TCP level (refused / hanging connect), possibly followed by sends made without credentials - nothing but handshake requests may reach the device then",
                "max_connection_lifetime is configured before the first connection and may be applied again (same value) while connected",
                "'bad credentials' = a token the device rejects; a wrong *key* with an accepted token (device rotates, client refuses) is not judged",
                "event instants are offset by irrational-ish idle times so that no exchange starts exactly on an expiry instant"]
@@ -74,6 +74,11 @@ def generate(ctx, rng):
     for j in range(300 if quick else 24000):
         d = rng.randint(4, 12 if quick else 25)
         yield ("r", j), {"kind": "history", "letters": [rng.choice(extra) for _ in range(d)], "lifetime": rng.choice(LIFETIMES)}
+    # the very first authentication attempts fail at the TCP level (refused / no answer) before anything else happens
+    for j, (pre, letters) in enumerate(itertools.product(
+            [["auth_refused"], ["auth_refused", "send"], ["auth_hang"], ["auth_refused", "auth_refused", "send"], ["auth_hang", "send"], ["auth_refused", "send", "send"]],
+            [[], ["send"], ["jump_small", "send"], ["fin", "send"], ["auth_good"]])):
+        yield ("pre", j), {"kind": "history", "letters": letters, "lifetime": LIFETIMES[j % 4], "pre": pre}
     yield ("long",), {"kind": "long", "n": 5000 if quick else 70000}
 
 
@@ -121,8 +126,17 @@ def run_case(ctx, case):
         if lifetime is not None:
             lan.max_connection_lifetime = lifetime
         await asyncio.sleep(IDLE)
-        await op(loop, lan, "auth_initial", lambda: lan.authenticate(TOKEN, KEY))
         q = acframe.state_query()
+        for letter in case.get("pre", []):
+            # before any successful authentication: a refused / hanging connect, a send without credentials
+            if letter in ("auth_refused", "auth_hang"):
+                dev.connect_script = ["refuse" if letter == "auth_refused" else "hang"]
+                await op(loop, lan, "pre_" + letter, lambda: lan.authenticate(TOKEN, KEY))
+                dev.connect_script = []
+            else:
+                await op(loop, lan, "pre_send", lambda: lan.send(q))
+            await asyncio.sleep(IDLE)
+        await op(loop, lan, "auth_initial", lambda: lan.authenticate(TOKEN, KEY))
         for letter in letters + ["send"]:
             await asyncio.sleep(IDLE)
             mode["m"] = "normal"
@@ -280,8 +294,9 @@ def _check(ctx, case, dev, net, calls, windows, lifetime, modulus_state=None):
     # --- expiry rules joined with the call log
     order = sorted(opened.items(), key=lambda kv: kv[1])
     for (t0, t1, letter, res) in calls:
-        if not letter.startswith("send") and letter != "fin_refuse_send":
+        if not letter.startswith("send") and letter != "fin_refuse_send" and not (letter.startswith("auth") and letter != "auth_initial"):
             continue
+        is_auth = letter.startswith("auth")
         cur = [cid for cid, to in order if to < t0]
         if not cur:
             continue
@@ -297,6 +312,8 @@ def _check(ctx, case, dev, net, calls, windows, lifetime, modulus_state=None):
                         ctx.violation("connection-lifetime-ignored", f"exchange started {d:.1f}s after connection {cid} was opened "
                                       f"(lifetime {lifetime}s) but the connection was used again", case, {"letter": letter})
                         continue
+        if is_auth:
+            continue          # an explicit authenticate always begins with a handshake; only the connection rule applies to it
         hs = [t for t in last_hs_ok.get(cid, []) if t < t0 - 1e-9]
         if hs and later:
             d = t0 - hs[-1]
